@@ -339,8 +339,20 @@ def run_shards(modname, specs, ctx, nproc=None):
     if nproc == 1 or os.environ.get("VP_SERIAL"):
         return [_worker(j) for j in jobs]
     mp = multiprocessing.get_context("fork")
+    budget = int(os.environ.get("VP_WATCHDOG_S", "900" if ctx.get("tier") == "quick" else "14400"))
     with mp.Pool(nproc, maxtasksperchild=1) as pool:
-        return pool.map(_worker, jobs, chunksize=1)
+        res = [pool.apply_async(_worker, (j,)) for j in jobs]
+        out = []
+        deadline = time.monotonic() + budget
+        for j, r in zip(jobs, res):
+            try:
+                out.append(r.get(timeout=max(1, deadline - time.monotonic())))
+            except multiprocessing.TimeoutError:
+                # a watchdog expiry is a harness problem (inconclusive), never a violation
+                out.append({"fatal": f"watchdog: shard did not finish within {budget}s",
+                            "shard": j[1].get("name")})
+        pool.terminate()
+        return out
 
 
 # --------------------------------------------------------------------------
